@@ -123,6 +123,13 @@ def parse_chainable(lib, fn, depth=0):
     digits = {}
     order = []
 
+    peeked = set()     # offsets read through an index / cursor + k without moving the cursor
+
+    def const_of(x):
+        while x.k == 'cast':
+            x = x.a[2]
+        return x.a[0] if x.k == 'const' and isinstance(x.a[0], int) else None
+
     def cursor_reads(e):
         nonlocal off
         n = 0
@@ -137,6 +144,17 @@ def parse_chainable(lib, fn, depth=0):
                     n += 1
                 elif inner.k == 'var' and inner.a[0] == cur:
                     P.reads.append(off)
+                elif inner.k == 'bin' and inner.a[0] == '+' and inner.a[1].k == 'var' and inner.a[1].a[0] == cur and const_of(inner.a[2]) is not None:
+                    P.reads.append(off + const_of(inner.a[2]))
+                    peeked.add(off + const_of(inner.a[2]))
+                    n += 1
+            elif x.k == 'index' and x.a[0].k == 'var' and x.a[0].a[0] == cur:
+                i = const_of(x.a[1])
+                if i is None:
+                    raise AnalysisError('%s: the cursor is subscripted with a non-constant' % e.loc)
+                P.reads.append(off + i)
+                peeked.add(off + i)
+                n += 1
         return n
 
     def do_block(block):
@@ -149,11 +167,13 @@ def parse_chainable(lib, fn, depth=0):
                 rhs = s.a[2] if s.k == 'decl' else s.a[1]
                 tgt = s.a[0] if s.k == 'decl' else (s.a[0].a[0] if s.a[0].k == 'var' else None)
                 if s.k == 'assign' and s.a[0].k == 'var' and s.a[0].a[0] == cur and s.a[2] == '+=':
-                    v = s.a[1]
-                    if v.k == 'const':
-                        for _ in range(v.a[0]):
+                    k_ = const_of(s.a[1])
+                    if k_ is None or k_ < 0:
+                        raise AnalysisError('%s: the cursor moves by a non-constant amount' % s.loc)
+                    for _ in range(k_):
+                        if off not in peeked:      # a character that was read in place is consumed, not skipped
                             P.tokens.append(('skip', off))
-                            off += 1
+                        off += 1
                     continue
                 if s.k == 'assign' and s.a[0].k == 'var' and s.a[0].a[0] == pname:
                     continue
@@ -388,61 +408,87 @@ def run(cfg):
     ob('R1', 'ZonedDateTime::printTo:brackets', zf.loc, tail == [('lit', '['), ('zone',), ('lit', ']')] and toks[-3:] == tail,
        'the zone name is not printed last between [ and ]: %s' % toks[-4:])
     # R3 sign pairing
-    pf = lib.fn(NS + 'TimeOffset::printTo')
-    ok, why = False, 'no sign selection found'
-    for s in pf.body:
-        if s.k == 'if':
-            cnd = s.a[0]
-            while cnd.k == 'cast':
-                cnd = cnd.a[2]
-            if cnd.k == 'bin' and cnd.a[0] == '<' and path_of(cnd.a[1].a[2] if cnd.a[1].k == 'cast' else cnd.a[1]) == 'this.mMinutes':
-                negs = [x for x in s.a[1] if x.k == 'assign' and x.a[1].k in ('cast', 'un')]
-                negated = set()
-                for x in s.a[1]:
-                    if x.k == 'assign' and x.a[0].k == 'var':
-                        v = x.a[1]
-                        while v.k == 'cast':
-                            v = v.a[2]
-                        if v.k == 'un' and v.a[0] == '-':
-                            w_ = v.a[1]
-                            while w_.k == 'cast':
-                                w_ = w_.a[2]
-                            if w_.k == 'var' and w_.a[0] == x.a[0].a[0]:
-                                negated.add(x.a[0].a[0])
-                minus = any(x.k == 'expr' and x.a[0].k == 'call' and x.a[0].a[2] and _chr(x.a[0].a[2][0]) == '-' for x in s.a[1])
-                plus = any(x.k == 'expr' and x.a[0].k == 'call' and x.a[0].a[2] and _chr(x.a[0].a[2][0]) == '+' for x in s.a[2])
-                ok = minus and plus and len(negated) == 2
-                why = 'negative offsets print %s and negate %s (expected "-" and both hour and minute)' % ('-' if minus else '?', sorted(negated))
-    ob('R3', 'TimeOffset::printTo:sign', pf.loc, ok, why)
-    cf = lib.fn(NS + 'TimeOffset::forOffsetStringChainable')
-    ok, why = False, 'no sign application found'
-    for s in walk_stmts(cf.body):
-        if s.k == 'if' and any(x.k == 'return' for x in s.a[1]) and any(x.k == 'return' for x in s.a[2]):
-            cnd = s.a[0]
-            while cnd.k == 'cast':
-                cnd = cnd.a[2]
-            rp = [x for x in s.a[1] if x.k == 'return'][0].a[0]
-            rn = [x for x in s.a[2] if x.k == 'return'][0].a[0]
-            if cnd.k == 'bin' and cnd.a[0] == '==' and _chr(cnd.a[2]) == '+':
-                pass
-            elif cnd.k == 'bin' and cnd.a[0] == '==' and _chr(cnd.a[2]) == '-':
-                rp, rn = rn, rp
-            else:
-                continue
+    # Both bodies are summarised path by path (E-GNF); the rule looks at what each path prints / returns, not at how the
+    # branches are spelled.
+    from .gnf import SymExec, Poly, valuations, cmp_formula, formula_str
 
-            def negs(e):
-                out = []
-                for a in (e.a[2] if e.k == 'call' else []):
-                    b = a
-                    n = False
-                    while b.k == 'cast' or (b.k == 'un' and b.a[0] == '-'):
-                        if b.k == 'un':
-                            n = not n
-                        b = b.a[-1]
-                    out.append(n)
-                return out
-            ok = negs(rp) == [False, False] and negs(rn) == [True, True]
-            why = 'plus arm negations %s, minus arm negations %s (expected none / both)' % (negs(rp), negs(rn))
+    def _Pk(k):
+        return Poly(dict(k))
+
+    def calls_of(eff, suffix):
+        out = []
+        for t, v in eff:
+            if t == 'call':
+                for a in _Pk(v).atoms():
+                    if a[0] == 'fn' and a[1].endswith(suffix):
+                        out.append(a)
+        return out
+    pf = lib.fn(NS + 'TimeOffset::printTo')
+    summ = SymExec(fold_global=lib.global_value).run(pf.name, pf.body, {})
+    MM = Poly.atom(('sym', 'this.mMinutes'))
+    ok, why, seen = True, '', set()
+    decls = [s.a[0] for s in pf.body if s.k == 'decl' and s.a[2] is None]
+    vals = list(valuations(summ.guards() + [cmp_formula('<', MM, Poly.const(0))]))
+    for val in vals:
+        hits = summ.outcome(val)
+        negative = val.eval(cmp_formula('<', MM, Poly.const(0)))
+        if len(hits) != 1:
+            ok, why = False, 'the sign selection does not depend on the sign of the minutes alone'
+            break
+        eff = hits[0][3]
+        lits = [a for a in calls_of(eff, 'Print::print') if len(a[2]) == 2 and _Pk(a[2][1]).is_const()]
+        pads = calls_of(eff, 'printPad2To')
+        first = chr(_Pk(lits[0][2][1]).const_value()) if lits and 0 < _Pk(lits[0][2][1]).const_value() < 128 else None
+        seen.add(negative)
+        if first != ('-' if negative else '+'):
+            ok, why = False, '%s offsets print %r first (expected %r)' % ('negative' if negative else 'non-negative', first, '-' if negative else '+')
+            break
+        if len(pads) != 2 or len(decls) < 2:
+            ok, why = False, 'expected two zero-padded fields fed from toHourMinute()'
+            break
+        want = [(-Poly.atom(('sym', d)) if negative else Poly.atom(('sym', d))) for d in decls[:2]]
+        got = [_Pk(p[2][1]) for p in pads]
+        if got != want:
+            ok, why = False, '%s offsets print the fields %r (expected %r: both parts carry the magnitude)' % ('negative' if negative else 'non-negative', got, want)
+            break
+    ob('R3', 'TimeOffset::printTo:sign', pf.loc, ok and seen == {True, False}, why or 'the sign of the minutes is not distinguished')
+    cf = lib.fn(NS + 'TimeOffset::forOffsetStringChainable')
+    summ = SymExec(fold_global=lib.global_value).run(cf.name, cf.body, {})
+    sign_var = [s.a[0] for s in cf.body if s.k == 'decl' and s.a[2] is not None and s.a[1] and 'char' in s.a[1] and '*' not in s.a[1]]
+    ok, why = bool(sign_var), 'no sign character is read'
+    outcomes = {}
+    if ok:
+        sign_atom = None
+        for s in cf.body:
+            if s.k == 'decl' and s.a[0] == sign_var[0]:
+                from .gnf import Canon
+                sign_atom = Canon(fold_global=lib.global_value)(s.a[2])
+        for ch in ('+', '-', 'x'):
+            fixed = cmp_formula('==', sign_atom, Poly.const(ord(ch)))
+            for val in valuations(summ.guards() + [fixed]):
+                if not val.eval(fixed):
+                    continue
+                hits = summ.outcome(val)
+                if len(hits) != 1 or hits[0][1] != 'return':
+                    ok, why = False, 'the parser has no single outcome for the sign character %r' % ch
+                    break
+                outcomes.setdefault(ch, set()).add(hits[0][2])
+        if ok and not all(len(outcomes.get(ch, ())) == 1 for ch in ('+', '-', 'x')):
+            ok, why = False, 'the outcome depends on more than the sign character: %s' % {k: len(v) for k, v in outcomes.items()}
+    if ok:
+        def factory(k):
+            a = [x for x in _Pk(k).atoms()]
+            return a[0] if len(a) == 1 and a[0][0] == 'fn' else None
+        fp, fm, fx = (factory(next(iter(outcomes[ch]))) for ch in ('+', '-', 'x'))
+        if not (fp and fm and fp[1] == fm[1] and fp[1].endswith('forHourMinute') and len(fp[2]) == 2 and len(fm[2]) == 2):
+            ok, why = False, 'a signed offset is not built by forHourMinute(hour, minute) on both signs'
+        else:
+            hp, mp = _Pk(fp[2][0]), _Pk(fp[2][1])
+            hm, mn = _Pk(fm[2][0]), _Pk(fm[2][1])
+            if hp.is_const() or mp.is_const() or not (hm == -hp and mn == -mp):
+                ok, why = False, "'+' builds forHourMinute(%r, %r), '-' builds forHourMinute(%r, %r): the sign must apply to both parts" % (hp, mp, hm, mn)
+        if ok and not (fx and fx[1].endswith('forError')):
+            ok, why = False, 'a character other than + or - is not rejected'
     ob('R3', 'TimeOffset::forOffsetStringChainable:sign', cf.loc, ok, why)
     # R4 placeholders
     for cls in ('LocalDate', 'LocalTime', 'LocalDateTime', 'OffsetDateTime', 'ZonedDateTime'):
@@ -551,4 +597,15 @@ SELFTEST = [
          find=r'(static ZonedDateTime forDateString\(const char\* dateString\) \{\n      OffsetDateTime dt = OffsetDateTime::forDateString\(dateString\);\n)      return ZonedDateTime\(dt, TimeZone::forTimeOffset\(dt.timeOffset\(\)\)\);',
          replace=r'\1      return forEpochSeconds(dt.toEpochSeconds(), TimeZone::forTimeOffset(dt.timeOffset()));', rule='R5'),
     dict(id='zone-brackets', file='src/ace_time/ZonedDateTime.cpp', find="  printer.print('[');", replace="  printer.print('(');", rule='R1', construct='brackets'),
+    # behaviour-preserving rewrites: the rules must stay quiet
+    dict(id='offset-print-branches-swapped-silent', file='src/ace_time/TimeOffset.cpp',
+         find="  if (mMinutes < 0) {\n    printer.print('-');\n    hour = -hour;\n    minute = -minute;\n  } else {\n    printer.print('+');\n  }",
+         replace="  if (mMinutes >= 0) {\n    printer.print('+');\n  } else {\n    printer.print('-');\n    hour = -hour;\n    minute = -minute;\n  }", expect='silent'),
+    dict(id='offset-parse-branches-swapped-silent', file='src/ace_time/TimeOffset.cpp',
+         find="  if (utcSign == '+') {\n    return forHourMinute(hour, minute);\n  } else {\n    return forHourMinute(-hour, -minute);\n  }",
+         replace="  if (utcSign == '-') {\n    return forHourMinute(-hour, -minute);\n  }\n  return forHourMinute(hour, minute);", expect='silent'),
+    dict(id='time-parser-skip-spelled-plus-one-silent', file='src/ace_time/LocalTime.cpp', unique=False, nth=0,
+         find="  // ':'\n  s++;\n", replace="  // ':'\n  s += 1;\n", expect='silent'),
+    dict(id='time-parser-indexed-digits-silent', file='src/ace_time/LocalTime.cpp',
+         find="  uint8_t hour = (*s++ - '0');\n  hour = 10 * hour + (*s++ - '0');\n", replace="  uint8_t hour = 10 * (s[0] - '0') + (s[1] - '0');\n  s += 2;\n", expect='silent'),
 ]
